@@ -71,7 +71,7 @@ func init() {
 				c["group"] = []string{"", "", "plugins", "2000"}[u("group", 4)]
 				c["ports"] = []string{"", "11000-11010", "0-0"}[u("ports", 3)]
 				c["versions"] = []string{"1", "1,2", "1,2,3"}[u("versions", 3)]
-				s := &k.Spec{Params: c}
+				s := &k.Spec{Seed: sd, Params: c}
 				if u("noise", 3) == 0 {
 					swarm(s, "client.go:Client.Start")
 					if s.DelayClass == "big" {
